@@ -229,8 +229,14 @@ class Gen:
                 return [P(a1, form % (fmt(v), c, fmt(-rate), c2)), tail]
             if fl == "total-cost":
                 tot = abs(v * rate)
-                return [P(a1, "%s %s @@ %s %s" % (fmt(v), c, fmt(tot), c2)),
-                        P(a2, "%s %s" % (fmt(-tot if v > 0 else tot), c2))]
+                if r.random() < 0.4:
+                    # a total the quantity does not divide (the price of one unit has no finite expansion): the balancing
+                    # value is the total AS WRITTEN, whether the counter-amount is written or omitted
+                    tot = Fraction(r.choice(["50", "70", "100", "1", "10.01", "0.07"]))
+                    v = Fraction(r.choice(["17.5", "30", "7", "13", "-17.5", "-3", "0.3", "-21"]))
+                form = r.choice(["%s %s @@ %s %s", "%s %s @@ %s %s", "%s %s {{%s %s}}"])
+                return [P(a1, form % (fmt(v), c, fmt(tot), c2)),
+                        r.choice([P(a2, "%s %s" % (fmt(-tot if v > 0 else tot), c2)), a2])]
             if fl == "neg-total":
                 tot = abs(v * rate)
                 return [P(a1, "%s %s @@ %s %s" % (fmt(v), c, fmt(-tot), c2)),
